@@ -114,6 +114,12 @@ Inductive op :=
 | OLock (g : gid) | OUnlock (g : gid) | ODestroy (g : gid)
 | OIsLocked (g : gid) | OProtects (g : gid) (m : mid).
 
+(* the free helper functions of mutex.hpp: guard(&m) = unique_lock(m) (locking), guard(dont_lock, &m) =
+   unique_lock(dont_lock, m) (deferred: has the mutex, does not own it).  There is no adopt_lock overload. *)
+Inductive helper := HGuard | HGuardDontLock.
+Definition helper_op (h : helper) (g : gid) (m : mid) : op :=
+  match h with HGuard => ONew KUnique g m | HGuardDontLock => ODefer KUnique g m end.
+
 Inductive ores :=
 | RUnit | RBool (b : bool)
 | RAssert (w : awhere) | RUB        (* the run stops here *)
